@@ -70,3 +70,46 @@ func TestRaceMonitorReleaseBeforeYield(t *testing.T) {
 		t.Fatalf("only %d schedules explored", total)
 	}
 }
+
+// Two read locks do not order their holders, a read unlock orders the holder before the next write lock, and an
+// unlock learns nothing from the lock that follows it.
+func TestRaceMonitorExactClocks(t *testing.T) {
+	var rw Obj
+	run := func(body func(m map[string]int)) int {
+		m := map[string]int{}
+		res := Execute(Config{Race: true}, func() { body(m); Quiesce() })
+		return len(res.Races)
+	}
+	rlock := func() { Cur().Point(Op{Kind: "rw.rlock", Obj: &rw, VC: VCReadAcquire}) }
+	runlock := func() { Cur().Point(Op{Kind: "rw.runlock", Obj: &rw, Release: true, VC: VCReadRelease}) }
+	lock := func() { Cur().Point(Op{Kind: "rw.lock", Obj: &rw, VC: VCWriteAcquire}) }
+	unlock := func() { Cur().Point(Op{Kind: "rw.unlock", Obj: &rw, Release: true, VC: VCRelease}) }
+	// a write under a read lock next to a read under a read lock: a race although both threads used the mutex
+	if n := run(func(m map[string]int) {
+		Go(func() { rlock(); MW(m)["a"] = 1; runlock() })
+		Go(func() { rlock(); _ = MR(m)["a"]; runlock() })
+	}); n != 1 {
+		t.Fatalf("two read-lock holders: %d races, want 1", n)
+	}
+	// a read under a read lock, then a write under the write lock: ordered (default schedule runs them in this order)
+	if n := run(func(m map[string]int) {
+		Go(func() { rlock(); _ = MR(m)["a"]; runlock() })
+		Go(func() { lock(); MW(m)["a"] = 1; unlock() })
+	}); n != 0 {
+		t.Fatalf("reader then writer: %d races, want 0", n)
+	}
+	// a write under the write lock, then a read under a read lock: ordered
+	if n := run(func(m map[string]int) {
+		Go(func() { lock(); MW(m)["a"] = 1; unlock() })
+		Go(func() { rlock(); _ = MR(m)["a"]; runlock() })
+	}); n != 0 {
+		t.Fatalf("writer then reader: %d races, want 0", n)
+	}
+	// the first thread reads after its unlock what the second writes under the lock it takes next: a race
+	if n := run(func(m map[string]int) {
+		Go(func() { lock(); unlock(); Yield(); _ = MR(m)["a"] })
+		Go(func() { lock(); MW(m)["a"] = 1; unlock() })
+	}); n != 1 {
+		t.Fatalf("read after unlock vs write under the next lock: %d races, want 1", n)
+	}
+}
